@@ -156,7 +156,8 @@ def install():
         ensures=[
             view_clause(RES, lambda old, res, self, mask, new_length: old["view"][np.asarray(mask)]),
             ("frame-self-unchanged", lambda old, res, self, mask, new_length: True if snap(self) == old["snap"] else "receiver changed"),
-            ("no-shared-storage", lambda old, res, self, mask, new_length: True if not shares_storage(res, self) else "result shares storage with receiver"),
+            # (no storage clause here: the property demands unshared storage only of EXPLICITLY requested copies - copy(),
+            #  copy=True - and a filter that keeps every row may legitimately reuse the receiver's arrays)
             mode_clause(RES),
         ] + wf_clauses(RES)))
 
